@@ -34,7 +34,7 @@ def run(ctx):
         ctx.tlc_mc("MC_Stats", "MC_Stats_big5.cfg", timeout=1500)
     ctx.tlc_mc("MC_Stats", "MC_Stats_online_big.cfg" if T else "MC_Stats_online.cfg", timeout=900)
     ctx.tlc_mc("MC_Stats", "MC_Stats_conn_big.cfg" if T else "MC_Stats_conn.cfg", timeout=900, coverage=T)
-    for m in ("mutClear", "mutKick", "mutLate") + (("mutVeto", "mutLog", "mutFloor") if T else ()):
+    for m in ("mutClear", "mutKick", "mutLate", "mutAuth") + (("mutVeto", "mutLog", "mutFloor") if T else ()):
         ctx.tlc_mc("MC_Stats", "MC_Stats_%s.cfg" % m, expect_violation=True)
     scns = ctx.tlc_gen("MC_Stats", "Gen_Stats.cfg", num=2000 if T else 250, depth=31)
     ctx.write_scenarios("stats", scns)
